@@ -361,6 +361,72 @@ class Function:
     def in_cycle(self, inst):
         return self.can_reach(inst, inst)
 
+    def counted_loop(self, head):
+        """(bound, description) if the loop headed by block `head` is a counted loop: a phi of the header starts at a constant,
+        is stepped by a positive constant on every way round, and the header (or the block that closes the loop) leaves the loop
+        as soon as the counter fails an ordered / != comparison with a constant.  None otherwise."""
+        H = self.blocks[head]
+
+        def reach(src):
+            seen, stack = set(), [src]
+            while stack:
+                b = stack.pop()
+                if b.name in seen:
+                    continue
+                seen.add(b.name)
+                stack.extend(b.succs)
+            return seen
+        body = {b.name for b in self.order if H.name in reach(b) and b.name in reach(H)} | {H.name}
+        latches = [b for b in H.preds if b.name in body]
+        for phi in H.insts:
+            if phi.op != "phi":
+                continue
+            init, step, ok = None, None, True
+            for v, bname in phi.incoming:
+                bname = bname if isinstance(bname, str) else bname.name
+                if bname in body:
+                    d = v.inst
+                    if d is None or d.op != "add" or not any(o.k == "inst" and o.name == phi.name for o in d.ops) or \
+                            not any(o.is_const_int() and o.sval > 0 for o in d.ops):
+                        ok = False
+                        break
+                    c = [o.sval for o in d.ops if o.is_const_int()][0]
+                    if step not in (None, c):
+                        ok = False
+                        break
+                    step = c
+                    inc_name = d.name
+                elif v.is_const_int():
+                    if init not in (None, v.sval):
+                        ok = False
+                        break
+                    init = v.sval
+                else:
+                    ok = False
+                    break
+            if not ok or init is None or step is None:
+                continue
+            for tb in [H] + latches:
+                t = tb.term
+                if t.op != "br" or t.cond is None or t.cond.inst is None or t.cond.inst.op != "icmp":
+                    continue
+                ic = t.cond.inst
+                a, b = ic.ops
+                while a.k == "inst" and a.inst is not None and a.inst.op in ("zext", "sext"):
+                    a = a.inst.ops[0]       # (the counter compared in a wider type)
+                if not (a.k == "inst" and a.name in (phi.name, inc_name) and b.is_const_int()):
+                    continue
+                succs = t.succs
+                stay_true = (succs[0] if isinstance(succs[0], str) else succs[0].name) in body
+                stay_false = (succs[1] if isinstance(succs[1], str) else succs[1].name) in body
+                if stay_true == stay_false:
+                    continue
+                N = b.sval if ic.pred.startswith("s") else b.uval
+                if stay_true and (ic.pred in ("ult", "slt", "ule", "sle") or (ic.pred == "ne" and step == 1 and init <= N)):
+                    n = max(0, (N - init + step - 1) // step + (1 if ic.pred.endswith("le") else 0))
+                    return n, "counter %s from %d step %d while %s %d" % (phi.name, init, step, ic.pred, N)
+        return None
+
     def loops_headers(self):
         """Targets of retreating edges of a depth-first traversal (covers irreducible loops such as
         protothread switch dispatch into a loop body)."""
